@@ -2,7 +2,7 @@
 # ./seedall.sh [round]   run every stored seeded change against its own property's quick check
 # (plus the extra checks listed in seeded/<id>/also) and print one line per (seed, check).
 cd /verif || exit 2
-for d in seeded/C??-r${1:-?}; do
+for d in seeded/C??-r${1:-*}; do
   id=$(basename $d); prop=${id%%-*}
   extra=""; [ -f $d/also ] && extra=$(cat $d/also)
   echo -n "$id -> "
